@@ -199,6 +199,32 @@ Next == \/ \E src \in Srcs, ep \in Eps, d \in Ds, p \in RegProfiles, var \in Reg
 
 Spec == Init /\ [][Next]_vars
 
+(* -- sampling of long histories (tlc -simulate) -------------------------------- *)
+(* Same actions, but the parameters of each step are drawn with               *)
+(* RandomElement so that the kinds of step are balanced: clock steps between  *)
+(* requests, re-registrations of existing names, requests to existing         *)
+(* locations, and roughly as many valid as invalid request forms.  One        *)
+(* disjunct = one equally likely choice of the simulator; a choice that is    *)
+(* not enabled is skipped.  Not used for exhaustive checking.                 *)
+Chance(pct) == RandomElement(1..100) <= pct
+PickVar(vs) == IF Chance(60) \/ vs = {"ok"} THEN "ok" ELSE RandomElement(vs \ {"ok"})
+PickKey == IF DOMAIN byKey # {} /\ Chance(45) THEN RandomElement(DOMAIN byKey)
+           ELSE <<RandomElement(Eps), RandomElement(Ds)>>
+PickLoc == IF DOMAIN byPath # {} /\ Chance(88) THEN RandomElement(DOMAIN byPath) ELSE LowestFree(byPath)
+
+SimNext ==
+  \/ \E w \in 1..3 : \E src \in {RandomElement(Srcs)}, key \in {PickKey}, p \in {RandomElement(RegProfiles)},
+                        var \in {PickVar(RegVars)} : Register(src, key[1], key[2], p, var)
+  \/ \E w \in 1..3 : \E src \in {RandomElement(Srcs)}, loc \in {PickLoc}, u \in {RandomElement(UpdProfiles)},
+                        var \in {PickVar(UpdVars)} : UpdatePost(src, loc, u, var)
+  \/ \E w \in 1..1 : \E src \in {RandomElement(Srcs)}, loc \in {PickLoc}, u \in {RandomElement(PutProfiles)},
+                        var \in {PickVar(PutVars)} : UpdatePut(src, loc, u, var)
+  \/ \E w \in 1..1 : \E src \in {RandomElement(Srcs)}, loc \in {PickLoc} : Delete(src, loc)
+  \/ \E w \in 1..4 : \E n \in {RandomElement(Adv)} : Tick(n)
+  \/ \E n \in Adv : budget = 0 /\ Tick(n)      \* let the remaining lifetimes run out
+
+SimSpec == Init /\ [][SimNext]_vars
+
 (* -- invariants ---------------------------------------------------------------- *)
 NoBad == obs.bad = {}
 Inv_LookupsAreLive            == C20_LookupsAreLive(obs)
